@@ -2,6 +2,7 @@ import MsiProofs.Lemmas.PoolCodec
 import MsiProofs.Lemmas.RowCodec
 import MsiModel.PkgApi
 import MsiProofs.Lemmas.Synced
+import MsiProofs.Lemmas.AsciiSavable
 /-
 C01 — everything written is read back after close and reopen.
 Here: the layers of the round trip that are proved on the model — every storable cell is
@@ -119,5 +120,18 @@ def user_stream_notMeta := @MsiProofs.Synced.user_stream_notMeta
 /-- the frame condition really excludes the pool's names: their table streams ARE the pool streams -/
 example : StreamName.encode Gen.nameStringPool.toList true = sPool := rfl
 example : StreamName.encode Gen.nameStringData.toList true = sData := rfl
+
+
+/-! ### "expressible in the format" for ASCII text
+
+The hypothesis `Savable` of the history theorem contains the contract of the string codec
+(`encoding_rs` for the table-backed pages): decode ∘ encode = id on the strings in use.  For
+ASCII text it is a theorem under every code page of the model, so `Savable` reduces to
+structural conditions. -/
+/-- ASCII text round-trips under every code page -/
+def ascii_roundtrip := @MsiProofs.AsciiCodec.ascii_roundtrip'
+/-- a pool of ASCII strings with no live empty string and counts/lengths within their fields is
+expressible under any supported code page -/
+def poolOk_ascii := @MsiProofs.AsciiSavable.poolOk_ascii
 
 end MsiProofs.C01
